@@ -86,3 +86,7 @@ package hcl
 //@ nilrecv
 //@ assigns nothing
 //@ ensures fresh(ret) && ret != nil && ret.parent == ctx && ret.Variables == nil && ret.Functions == nil
+
+// verif:func (Range).Ptr
+//@ assigns nothing
+//@ ensures fresh(ret) && ret != nil
